@@ -29,6 +29,22 @@ CATS_TAKE = [(4, "within"), (2, "exact"), (3, "beyond"), (1, "zero"),
              (1, "neg"), (2, "float"), (2, "inf"), (2, "none"), (1, "ninf")]
 CATS_CUT = [(4, "within"), (2, "exact"), (3, "beyond"), (1, "zero"),
             (1, "neg"), (2, "float")]
+class _NoIter(object):
+  """ Not iterable although the attribute exists. """
+  __iter__ = None
+
+  def __repr__(self):
+    return "<_NoIter>"
+
+
+def _a_function():
+  return None
+
+
+# non-iterables: numbers, None, a class object (it HAS an __iter__ attribute
+# but is not iterable itself), an instance whose class disables iteration, a
+# function, a type
+NON_ITERABLES = [5, 2.5, None, list, _NoIter(), _a_function, dict, object]
 CTORS = {"tuple": tuple, "set": set, "sum": sum,
          "sorted_desc": lambda it: sorted(it, reverse=True)}
 MAX_POOL = 6
@@ -147,7 +163,8 @@ class C03(Property):
       elif op == "for":
         ops.append([op, W.choose("k", 5)])
       elif op == "thub_scalar":
-        ops.append([op, W.choose("obj", 3), W.choose("n", 3)])
+        ops.append([op, W.choose("obj", len(NON_ITERABLES)),
+                    W.choose("n", 3)])
       else:
         ops.append([op])
     return {"roots": roots, "ops": ops}
@@ -435,7 +452,7 @@ class _Ctx(object):
     self.res.counters["op." + name] += 1
     Stream = self.p.Stream
     if name == "thub_scalar":
-      obj = [5, 2.5, None][op[1]]
+      obj = NON_ITERABLES[op[1] % len(NON_ITERABLES)]
       got = self.call(name, lambda: self.p.thub(obj, op[2]))
       if got[0] != "ok" or got[1] is not obj:
         raise _Mismatch("thub-scalar", "thub(%r, %d) gave %r" % (obj, op[2],
